@@ -377,5 +377,9 @@ def run(chk, prog):
     for n, ok in muts:
         chk.check(ok, "R7", A.loc(pfn, n), "map change `%s` is notified before parse() returns true: the saved value is the value the run used"
                   % A.show(n)[:70].replace("\n", " "), "parse:unnotified:%s" % A.show(n)[:50].replace(" ", ""))
+    # ---- R8: "yields exactly the same value for every option": the value parsed is the value given and reaches its user unchanged
+    # (character-typed numeric options and value-changing conversions: decided under C20 R7/R8; re-evaluated here)
+    from .common import reeval
+    reeval(chk, prog, "C20", lambda i: i["rule"] in ("R7", "R8"), "R8", "R8-values-unchanged", 100)
     chk.notes.append("C13: option table (%d declarations) x writer type chain x skip list x re-readability, substituted-value "
                      "implication, precision, ordering. Exhaustive over the option table. Not decided: boost's parser." % len(t.options))
